@@ -6,9 +6,10 @@ import ast
 
 from .. import facts, fitrules, scale
 from ..astutil import (call_name, calls_in, const_str, dotted, func_params,
+                       literal,
                        norm, walk_no_nested)
 from ..cfg import CFG
-from ..guards import conditions_at
+from ..guards import conditions_at, from_early_exit
 from ..loader import AnchorError, Undecided
 from ..scale import INV, LIN, S, Interp, first_err, first_top, flat, is_inv
 
@@ -148,9 +149,11 @@ def r2_nan_fallback(ctx):
     r = repl[0]
     var = norm(r.ast.targets[0])
     conds = conditions_at(r.ast)
-    ctx.check(any(a.pol and a.text in (f"np.isnan({var})",
-                                       f"numpy.isnan({var})")
-                  for a in conds) and len(conds) == 1, r.ast,
+    nan_atoms = [a for a in conds if a.pol and a.text in (
+        f"np.isnan({var})", f"numpy.isnan({var})")]
+    others = [a for a in conds if a not in nan_atoms
+              and not from_early_exit(a, r.ast)]
+    ctx.check(bool(nan_atoms) and not others, r.ast,
               f"{var} replaced by the centre iff NaN",
               "the centre fallback is not applied exactly when the "
               "estimator returned NaN")
@@ -184,6 +187,8 @@ def r2_nan_fallback(ctx):
                                in norm(s) for s in lp.orelse)
              and any(isinstance(s, ast.Break) for s in ast.walk(lp))
              for lp in loops)
+    if not ok:
+        ok = _lookup_by_next(fn)
     ctx.check(ok, fn, "unknown method raises ValueError",
               "an unknown estimator name is not rejected with ValueError")
     # the estimator is called with the (clipped) force
@@ -199,6 +204,46 @@ def r2_nan_fallback(ctx):
         ctx.check(any(a.pol and "clip_approach" in a.text for a in conds), c,
                   "clipping only for estimators that declare it",
                   "clip_approach applied regardless of the declaration")
+
+
+def _lookup_by_next(fn):
+    """m = next((f for f in POC_METHODS if f.identifier == method), None);
+    if m is None: raise ValueError  -- before m is called"""
+    for st in fn.body:
+        if not (isinstance(st, ast.Assign) and isinstance(
+                st.targets[0], ast.Name) and isinstance(st.value, ast.Call)
+                and call_name(st.value) == "next"
+                and len(st.value.args) == 2
+                and literal(st.value.args[1]) is None
+                and isinstance(st.value.args[0], ast.GeneratorExp)):
+            continue
+        ge = st.value.args[0]
+        if len(ge.generators) != 1:
+            continue
+        g = ge.generators[0]
+        sel = [norm(i) for i in g.ifs]
+        tv = norm(g.target)
+        if norm(ge.elt) != tv or norm(g.iter) != "POC_METHODS" or \
+                len(sel) != 1 or sel[0] not in (
+                    f"{tv}.identifier == method",
+                    f"method == {tv}.identifier"):
+            continue
+        var = st.targets[0].id
+        uses = [c for c in calls_in(fn) if isinstance(c.func, ast.Name)
+                and c.func.id == var]
+        if not uses:
+            continue
+        good = True
+        for c in uses:
+            conds = conditions_at(c)
+            hit = [a for a in conds if not a.pol and a.text == f"{var} is None"
+                   and isinstance(a.origin, ast.If)
+                   and any(isinstance(s, ast.Raise) and "ValueError" in
+                           norm(s) for s in a.origin.body)]
+            good = good and bool(hit)
+        if good:
+            return True
+    return False
 
 
 REDUCTIONS = {"min", "max", "mean", "average", "argmax", "argmin", "ptp",
